@@ -308,7 +308,7 @@ pub fn case<G: CurveTag>(bytes: &[u8], col: &mut Collector, cfg: &GenCfg) -> Res
 
 fn dispatch(sub: &str, bytes: &[u8], col: &mut Collector) -> Result<(), Failure> {
     let curve = Curve::from_name(sub.split('/').nth(1).unwrap_or("")).unwrap_or(Curve::Secq);
-    let cfg = GenCfg::small();
+    let cfg = if sub.ends_with("/large") { GenCfg { max_ops1: 20, max_closures: 3, max_ops2: 10, max_commits: 4, big_gates: 70 } } else { GenCfg::small() };
     with_curve!(curve, G => case::<G>(bytes, col, &cfg))
 }
 
@@ -331,6 +331,10 @@ pub fn run(tier: &str, seed: u64) -> i32 {
         let sub = format!("c02/{}", c.name());
         rep.outcome.merge(replay_corpus("C02", &sub, &|b, col| dispatch(&sub, b, col)));
         rep.outcome.merge(search(&sub, seed, n, 600, &|b, col| dispatch(&sub, b, col)));
+        // size-biased tail (up to 70 gates, k up to 7)
+        let subl = format!("c02/{}/large", c.name());
+        let nl = super::scale(tier, 32, 400);
+        rep.outcome.merge(search(&subl, seed, nl, 900, &|b, col| dispatch(&subl, b, col)));
     }
     for c in [
         "inject:linear", "inject:constant-only", "inject:committed-only", "inject:gate", "inject:cancelling-linear-pair",
